@@ -104,16 +104,24 @@ func SourceFileFunction(env *Zlisp, name string, args []Sexp) (Sexp, error) {
 		return SexpNull, WrongNargs
 	}
 
+	// every sourced file pushes its value; the call has one value, that
+	// of the last file, and must not leave the others behind (nor pop an
+	// operand that is not its own when nothing was sourced).
+	start := env.datastack.Size()
 	for _, v := range args {
 		if err := env.sourceItem(v); err != nil {
+			env.datastack.TruncateToSize(start)
 			return SexpNull, err
 		}
 	}
-
+	if env.datastack.Size() <= start {
+		return SexpNull, nil
+	}
 	result, err := env.datastack.PopExpr()
 	if err != nil {
 		return SexpNull, err
 	}
+	env.datastack.TruncateToSize(start)
 	return result, nil
 }
 
